@@ -427,11 +427,17 @@ def build_extracted(extract_v, driver_ml, exe_name, timeout=600):
 # known findings
 
 def load_findings():
-    path = os.path.join(VERIF, 'known_findings.json')
-    try:
-        return json.load(open(path))
-    except IOError:
-        return {'findings': [], 'fixed': []}
+    """known_findings/<id>.json, one file per property: {"findings": [{property, key, what, replay}], "fixed": ["fixed: property=.. <commit> <what>"]}.
+    (known_findings.json at top level is the merged copy written by tools/mkmanifest.py for readers.)"""
+    out = {'findings': [], 'fixed': []}
+    d = os.path.join(VERIF, 'known_findings')
+    if os.path.isdir(d):
+        for f in sorted(os.listdir(d)):
+            if f.endswith('.json'):
+                j = json.load(open(os.path.join(d, f)))
+                out['findings'] += j.get('findings', [])
+                out['fixed'] += j.get('fixed', [])
+    return out
 
 
 def known_for(prop_id):
@@ -630,7 +636,6 @@ def run_check(plugin, tier, seed, replay_path=None):
         if discharged == 0:
             # a proof-level record needs discharged >= 1; a broken run is reported with the generic keys only
             cov['obligations_total'] = cov.pop('obligations'); cov.pop('discharged')
-            cov['distinct_nontrivial'] = max(cov['distinct_nontrivial'], 2) if cov['evaluations'] > 1 else cov['distinct_nontrivial']
         if chk: cov['coqchk'] = chk.get('summary', '')
         if getattr(plugin, 'EXPLANATION', None): cov['explanation'] = plugin.EXPLANATION
         ev = {'property_id': pid, 'tier': tier, 'seed': seed, 'level': level, 'coverage': cov,
